@@ -421,7 +421,7 @@ type fact struct {
 func oracleSeq(c Case, idx int, res *lib.Result) {
 	codes := map[uint64]*fact{}
 	bad := func(i int, clause, site, detail string) {
-		res.Violate(lib.Violation{Clause: clause, Case: idx, Detail: fmt.Sprintf("%s case, op %d (%s): %s", c.Kind, i, c.Ops[i].K, detail),
+		res.Violate(lib.Violation{Clause: clause, Case: idx, Detail: fmt.Sprintf("%s case (ttl %d s), op %d (%s): %s; history [%s]", c.Kind, c.TTL, i, c.Ops[i].K, detail, histString(c.Ops[:i+1])),
 			Replay: c, Key: clause + ":" + site})
 	}
 	site := "ExchangeCode"
@@ -481,6 +481,25 @@ func oracleSeq(c Case, idx int, res *lib.Result) {
 			}
 		}
 	}
+}
+
+func histString(ops []Op) string {
+	var xs []string
+	for _, o := range ops {
+		switch o.K {
+		case "Submit":
+			xs = append(xs, fmt.Sprintf("Submit->#%d(booking %d)", o.C, o.B))
+		case "Exchange":
+			xs = append(xs, fmt.Sprintf("Exchange #%d", o.C))
+		case "Purge":
+			xs = append(xs, fmt.Sprintf("Purge booking %d", o.B))
+		case "Tick":
+			xs = append(xs, fmt.Sprintf("Tick %ds", o.Dt))
+		default:
+			xs = append(xs, o.K)
+		}
+	}
+	return strings.Join(xs, "; ")
 }
 
 func oracleRace(c Case, idx int, res *lib.Result) {
